@@ -77,7 +77,10 @@ func (s *jobSnapshot) addSourceRunnerSnapshot(ckpt *jobpb.SourceRunnerCheckpoint
 		return fmt.Errorf("received source runner checkpoint with unknown id id=%s, expectedIDs=%v", ckpt.SourceRunnerId, ids)
 	}
 	if wasCompleted {
-		slog.Warn("received another source runner checkpoint from same id", "id", ckpt.SourceRunnerId)
+		// A repeated acknowledgement (e.g. a retried request) must not add the
+		// runner's split states a second time.
+		slog.Warn("ignoring another source runner checkpoint from same id", "id", ckpt.SourceRunnerId)
+		return nil
 	}
 
 	s.sourceRunnerIDsComplete[ckpt.SourceRunnerId] = true
